@@ -27,7 +27,7 @@ def fault_params(tier):
     D, L = fault_cfg(tier)
     shp = SHAPES_Q if tier == "quick" else SHAPES_T
     ps = [P("shape", 0, len(shp) - 1), P("fnode", 0, 3 if tier == "quick" else 4), P("phase", 0, 2), P("moment", 0, 1),
-          P("exckind", 0, 1), P("svc", 0, 3), P("byref", 0, 1)]
+          P("exckind", 0, 1), P("svc", 0, 3), P("byref", 0, 1), P("notimeout", 0, 1)]
     for j in range(D):
         ps += [P(f"gap{j}", 0, L), P(f"arm{j}", 0, 4)]
     return ps
@@ -47,6 +47,7 @@ def fault_fn(a, tier):
     # 3: other nodes start a task factory and a task with a slow start-up in it
     svc = pick(a["svc"], 4)
     byref = pick(a["byref"], 2)  # the failing component's type is given as a "module:attr" string
+    notimeout = pick(a["notimeout"], 2)  # timeout=None: the documented way of disabling the start timeout
     tape = DeviationTape([(a[f"gap{j}"], a[f"arm{j}"]) for j in range(D)], L)
     env = Env()
     exc = Boom("boom") if exckind == 0 else ComponentStartError("starting", "bogus.path", Component)
@@ -60,7 +61,7 @@ def fault_fn(a, tier):
         if svc == 3 and i != fnode:
             start.insert(1, ("tf", f"job{i}", 2))
         elif svc and i != fnode and not (svc == 2 and i in below):
-            start.insert(1, ("svc", f"svc{i}", 2, svc == 2))
+            start.insert(1, ("svc", f"svc{i}", 2, svc == 2, "callable" if i % 2 else "cancel"))
         node = NodeSpec(i, parents[i], prep, start)
         if i == fnode:
             node.by_ref = bool(byref)
@@ -76,7 +77,7 @@ def fault_fn(a, tier):
     async def main():
         async with Context():
             try:
-                await start_component("harness.ctree:REFS.c0" if (byref and fnode == 0) else classes[0], {}, timeout=1000)
+                await start_component("harness.ctree:REFS.c0" if (byref and fnode == 0) else classes[0], {}, timeout=None if notimeout else 1000)
                 out["outcome"] = None
             except BaseException as e:  # noqa
                 out["outcome"] = e
@@ -91,7 +92,7 @@ def fault_fn(a, tier):
 
     _, escaped, k = run(main, chooser=tape)
     summary = {"parents": parents, "failing_component": fnode, "phase": PHASES[phase], "moment": ["first statement", "after a checkpoint"][moment],
-               "exception": type(exc).__name__, "failing_component_declared_by": "'module:attr' string" if byref else "class object", "others_start_service": ["no", "slow startup", "startup stalls forever", "a task factory task with a slow start-up"][svc], "schedule": tape.taken}
+               "exception": type(exc).__name__, "failing_component_declared_by": "'module:attr' string" if byref else "class object", "others_start_service": ["no", "slow startup", "startup stalls forever", "a task factory task with a slow start-up"][svc], "schedule": tape.taken, "timeout": None if notimeout else 1000}
     if escaped is not None:
         return FAIL(f"fault:escaped:{type(escaped).__name__}", f"{escaped!r} log={env.log}", summary)
     e = out["outcome"]
@@ -127,6 +128,22 @@ def fault_fn(a, tier):
         if label not in registered and log.index(("svc_end", label)) > log.index(("leaving",)) if ("svc_end", label) in log else True:
             if ("svc_end", label) not in log or log.index(("svc_end", label)) > out["mark"]:
                 return FAIL("fault:interrupted-service-start-left-running", f"{label}: {log}", summary)
+    for ev in log:
+        if ev[0] == "svc_action" and ev[1] not in registered:
+            return FAIL("fault:teardown-action-invoked-for-a-service-whose-start-never-completed", f"{ev[1]}: {log}", summary)
+    # one reverse order over callbacks AND service tasks: a service is stopped after everything registered after its start completed
+    # and before everything registered before that (also by siblings, while its start-up was in flight)
+    for label in registered:
+        at = next(j for j, ev in enumerate(log) if ev[0] == "svc_registered" and ev[2] == label)
+        if ("svc_end", label) not in log:
+            return FAIL("fault:registered-service-never-stopped", label, summary)
+        end = log.index(("svc_end", label))
+        for j, ev in enumerate(log):
+            if ev[0] == "td_registered" and ("td", ev[1]) in log:
+                ran_at = log.index(("td", ev[1]))
+                if (j < at and ran_at < end) or (j > at and ran_at > end):
+                    return FAIL("fault:service-task-not-stopped-in-reverse-registration-order",
+                                f"{label} vs callback {ev[1]} (registered {'before' if j < at else 'after'} the service's start completed): {log}", summary)
     reg = [ev[1] for ev in log if ev[0] == "td_registered"]
     ran = [ev[1] for ev in log if ev[0] == "td"]
     if ran != list(reversed(reg)) or any(log.index(("td", x)) < log.index(("leaving",)) for x in ran):
@@ -144,12 +161,13 @@ FAULT = Harness(
     cube=lambda tier: 4,
     title="one component fails in one phase at one moment; every tree shape; deviation-bounded schedules",
     bound_text=lambda tier: f"all rooted trees with 1..{4 if tier == 'quick' else 5} components x failing component x phase{{creating,preparing,starting}} x "
-    "moment{first statement, after a checkpoint} x exception{plain Exception, a ComponentStartError instance} x type given as class / 'module:attr' string x other components "
+    "moment{first statement, after a checkpoint} x exception{plain Exception, a ComponentStartError instance} x type given as class / 'module:attr' string x timeout{1000, None} x other components "
     "{no service, start a service task with a slow start-up, with a start-up that never completes, start a task-factory task with a slow start-up}; FIFO schedule with "
     + ("one deviation within the first 8 decisions" if tier == "quick" else "one deviation within the first 12 decisions, trees of up to 5 components"),
     oracle="ComponentStartError(phase, path, class) with __cause__ the original exception object; no start() of any ancestor; no startup/watchdog "
     "task alive and nothing of the tree logged after start_component raised (context kept open past the start timeout); an interrupted "
-    "service start is gone; everything registered before the failure is torn down LIFO when the surrounding context is left",
+    "service start is gone and its teardown action is never invoked; everything registered before the failure (callbacks and service tasks, cancelled or stopped "
+    "through a callable) is torn down in ONE reverse order when the surrounding context is left",
     outside="two simultaneous failures; BaseException failures; trees with more components",
     stubs=STUBS_COMMON,
 )
